@@ -39,6 +39,72 @@ type Case struct {
 	Src     string         `json:"src"` // which unit/grid row built it
 	Thrift  string         `json:"thrift"`
 	Plugins []fplab.Plugin `json:"plugins"`
+	// CLI is the variation of the rest of the command line ("" = the plain
+	// one); Arg is its parameter.
+	CLI string `json:"cli,omitempty"`
+	Arg string `json:"arg,omitempty"`
+	// CLIAfter: the variation's flag follows the --plugin flags instead of
+	// preceding them
+	CLIAfter bool `json:"cli_after,omitempty"`
+}
+
+// Variations of the command line around the --plugin flags. Those listed in
+// cliFails make (or may make) the run fail for a reason that has nothing to do
+// with the plugins - before they are started (argument validation, missing or
+// invalid input, thrift root, package prefix), or after (code generation of
+// the module fails, the output directory cannot be written). The statement's
+// life-cycle clauses hold for such runs too: a plugin is either never started,
+// or it is shut down (goodbye after a good handshake, pipes closed, reaped)
+// before thriftrw returns. Whether thriftrw fails is not C16's business there.
+const (
+	cliOutputFile      = "output-file"        // --output-file=<Arg ending in .go>: a normal run
+	cliHarmlessFlag    = "harmless-flag"      // a generator option that does not concern plugins (Arg): a normal run
+	cliOutputFileNotGo = "output-file-not-go" // --output-file=<Arg not ending in .go>
+	cliNoInput         = "no-input-file"
+	cliTwoInputs       = "two-input-files"
+	cliUnknownFlag     = "unknown-flag"
+	cliInputMissing    = "input-file-missing"
+	cliCompileError    = "compile-error" // the Thrift file does not compile
+	cliRootNotAncestor = "thrift-root-not-an-ancestor"
+	cliNoPkgPrefix     = "no-pkg-prefix" // no --pkg-prefix and no GOPATH
+	cliPluginNotFound  = "plugin-not-found"
+	cliVersion         = "version"
+	cliHelp            = "help"
+	cliGenerateError   = "generate-error" // compiles, but two types map to one Go name
+	cliOutIsFile       = "out-is-a-file"  // --out names an existing regular file
+)
+
+var cliFails = []string{cliOutputFileNotGo, cliNoInput, cliTwoInputs, cliUnknownFlag, cliInputMissing, cliCompileError,
+	cliRootNotAncestor, cliNoPkgPrefix, cliPluginNotFound, cliVersion, cliHelp, cliGenerateError, cliOutIsFile}
+
+var (
+	notGoNames    = []string{"svc.txt", "svc", "svc.go.bak", "svc.GO", "svc.go/", "go"}
+	goNames       = []string{"svc.go", "x.go", "all.thrift.go"}
+	harmlessFlags = []string{"--no-zap", "--no-embed-idl", "--no-recurse", "--no-constants", "--no-service-helpers", "--no-version-check", "--enum-text-marshal-strict"}
+)
+
+// cliMayFail reports whether the variation lets the run fail for reasons of
+// its own.
+func cliMayFail(cli string) bool {
+	for _, k := range cliFails {
+		if k == cli {
+			return true
+		}
+	}
+	return false
+}
+
+// withCLI returns the case with the variation applied (the Thrift source is
+// part of the case).
+func withCLI(c Case, cli, arg string, after bool) Case {
+	c.CLI, c.Arg, c.CLIAfter = cli, arg, after
+	switch cli {
+	case cliCompileError:
+		c.Thrift = thriftSrc + "struct Broken { 1: optional NoSuchType x }\n"
+	case cliGenerateError:
+		c.Thrift = thriftSrc + "struct foo_bar { 1: optional string a }\nstruct FooBar { 1: optional string a }\n"
+	}
+	return c
 }
 
 // ---------------------------------------------------------------- running
@@ -83,9 +149,56 @@ func runOnce(c Case) (*fplab.Obs, error) {
 	if err := os.WriteFile(filepath.Join(idl, "svc.thrift"), []byte(c.Thrift), 0o644); err != nil {
 		return nil, err
 	}
-	args := []string{"--out", filepath.Join(work, "out"), "--pkg-prefix", "example.test/gen", "--thrift-root", idl}
-	args = append(args, fplab.PluginArgs(c.Plugins)...)
-	args = append(args, filepath.Join(idl, "svc.thrift"))
+	out, root, input := filepath.Join(work, "out"), idl, filepath.Join(idl, "svc.thrift")
+	var extra []string
+	switch c.CLI {
+	case cliOutputFile, cliOutputFileNotGo:
+		extra = []string{"--output-file=" + c.Arg}
+	case cliHarmlessFlag:
+		extra = []string{c.Arg}
+	case cliUnknownFlag:
+		extra = []string{"--no-such-flag"}
+	case cliVersion:
+		extra = []string{"--version"}
+	case cliHelp:
+		extra = []string{"--help"}
+	case cliInputMissing:
+		input = filepath.Join(idl, "nosuch.thrift")
+	case cliRootNotAncestor:
+		root = filepath.Join(work, "elsewhere")
+		if err := os.MkdirAll(root, 0o755); err != nil {
+			return nil, err
+		}
+	case cliOutIsFile:
+		if err := os.WriteFile(out, []byte("in the way\n"), 0o644); err != nil {
+			return nil, err
+		}
+	}
+	args := []string{"--out", out, "--thrift-root", root}
+	if c.CLI != cliNoPkgPrefix {
+		args = append(args, "--pkg-prefix", "example.test/gen")
+	}
+	pargs := fplab.PluginArgs(c.Plugins)
+	if c.CLI == cliPluginNotFound {
+		// Arg = position of the flag naming a plugin that is not on the PATH
+		at, _ := strconv.Atoi(c.Arg)
+		if at < 0 || at > len(pargs) {
+			at = len(pargs)
+		}
+		pargs = append(pargs[:at:at], append([]string{"--plugin=zqnosuch"}, pargs[at:]...)...)
+	}
+	if !c.CLIAfter {
+		args = append(append(args, extra...), pargs...)
+	} else {
+		args = append(append(args, pargs...), extra...)
+	}
+	switch c.CLI {
+	case cliNoInput:
+	case cliTwoInputs:
+		args = append(args, input, input)
+	default:
+		args = append(args, input)
+	}
 	return fplab.Run{Thriftrw: thriftrw, Fakeplugin: fake, Work: work, Dir: work, Args: args, Plugins: c.Plugins, Timeout: hostTimeout}.Do()
 }
 
@@ -104,6 +217,10 @@ func checkCase(c Case) (*fplab.Obs, error) {
 	o, err := runOnce(c)
 	if err != nil {
 		return nil, envError{err}
+	}
+	if o.TimedOut && o.Quiescent {
+		// blocked for good, not slow: no second, longer run is needed to tell
+		return o, ev.Errf("host/hang", "thriftrw did not finish: after %.0f s nothing moved any more (every thread of the host and of its plugins asleep for 5 s, no CPU time used, no new event): %s; plugins: %s; traces: %s", o.Wall.Seconds(), o.Blocked, describe(c), traces(c, o))
 	}
 	if o.TimedOut {
 		hostTimeout = 240 * time.Second
@@ -132,7 +249,7 @@ func describe(c Case) string {
 	var parts []string
 	for _, p := range c.Plugins {
 		hs, gen, bye := p.Script.Kinds()
-		s := fmt.Sprintf("%s[hs=%s gen=%s bye=%s", p.Name, hs, gen, bye)
+		s := fmt.Sprintf("%s[hs=%s gen=%s bye=%s", p.ID(), hs, gen, bye)
 		if p.Script.Handshake.FeatureList {
 			s += fmt.Sprintf(" features=%v", p.Script.Handshake.Features)
 		}
@@ -142,9 +259,25 @@ func describe(c Case) string {
 		if p.Script.LingerMs != 0 {
 			s += fmt.Sprintf(" linger=%dms", p.Script.LingerMs)
 		}
+		for _, step := range fplab.Steps {
+			if st := p.Script.StepOf(step); fplab.Normalize(step, st.Kind) == fplab.KFlood || st.FloodsAfter(step) {
+				s += fmt.Sprintf(" %s-flood=%d/%s", step, st.Flood, st.FloodPat)
+			}
+		}
 		parts = append(parts, s+"]")
 	}
+	if c.CLI != "" {
+		parts = append(parts, fmt.Sprintf("cli[%s %q after-plugins=%v]", c.CLI, c.Arg, c.CLIAfter))
+	}
 	return strings.Join(parts, " ")
+}
+
+func traces(c Case, o *fplab.Obs) string {
+	var trs []string
+	for _, p := range c.Plugins {
+		trs = append(trs, p.ID()+": "+trace(fplab.Of(o.Events, p.ID())))
+	}
+	return strings.Join(trs, " | ")
 }
 
 func trace(evs []fplab.Event) string {
@@ -180,9 +313,12 @@ func judge(c Case, o *fplab.Obs) error {
 		phase string
 	}
 	var failed []failure
+	// ambiguous: some plugin did what the statement neither counts as a
+	// failure nor as conforming (junk after the goodbye reply)
+	ambiguous := false
 
 	for i, p := range c.Plugins {
-		evs := fplab.Of(o.Events, p.Name)
+		evs := fplab.Of(o.Events, p.ID())
 		if len(evs) == 0 {
 			continue // never started: nothing to shut down
 		}
@@ -238,7 +374,9 @@ func judge(c Case, o *fplab.Obs) error {
 					nbye++
 				}
 			case fplab.EvFault:
-				if fplab.IsFailure(e.Step, e.Kind) {
+				if fplab.Ambiguous(e.Step, e.Kind) {
+					ambiguous = true
+				} else if fplab.IsFailure(e.Step, e.Kind) {
 					failed = append(failed, failure{i, e.Step + ":" + e.Kind, pred.FailPhase[i]})
 				}
 			case fplab.EvEOF:
@@ -275,7 +413,7 @@ func judge(c Case, o *fplab.Obs) error {
 	}
 
 	// --- host exit status != 0 iff some plugin failed; failing plugins are named
-	if len(failed) == 0 && o.Exit != 0 {
+	if len(failed) == 0 && o.Exit != 0 && !ambiguous && !cliMayFail(c.CLI) {
 		return ev.Errf("host/failed-without-plugin-failure", "no plugin executed a fault, yet thriftrw exited with %d: %s", o.Exit, clipS(o.Stderr, 600))
 	}
 	sort.SliceStable(failed, func(a, b int) bool { return failed[a].idx < failed[b].idx })
@@ -303,7 +441,7 @@ func judge(c Case, o *fplab.Obs) error {
 // ---------------------------------------------------------------- bookkeeping
 
 func nontrivial(c Case) bool {
-	if len(c.Plugins) >= 2 {
+	if len(c.Plugins) >= 2 || c.CLI != "" {
 		return true
 	}
 	for _, p := range c.Plugins {
@@ -311,12 +449,41 @@ func nontrivial(c Case) bool {
 		if hs != fplab.KOK || gen != fplab.KOK || bye != fplab.KOK || p.Script.ExitStatus != 0 || p.Script.Handshake.FeatureList {
 			return true
 		}
+		for _, step := range fplab.Steps {
+			if p.Script.StepOf(step).FloodsAfter(step) {
+				return true
+			}
+		}
 	}
 	return false
 }
 
 func classes(c Case, o *fplab.Obs) []string {
 	cls := []string{"unit:" + c.Src, fmt.Sprintf("plugins:%d", len(c.Plugins))}
+	for _, p := range c.Plugins {
+		if p.Instance != "" {
+			cls = append(cls, "further-instance-of-a-plugin")
+		}
+	}
+	if c.CLI != "" {
+		cls = append(cls, "cli:"+c.CLI)
+		if o != nil {
+			started := 0
+			for _, e := range o.Events {
+				if e.Ev == fplab.EvStart {
+					started++
+				}
+			}
+			when := "cli-failure:no-plugin-started"
+			switch {
+			case !cliMayFail(c.CLI):
+				when = "cli-variation:normal-run"
+			case started > 0:
+				when = "cli-failure:plugins-started"
+			}
+			cls = append(cls, when)
+		}
+	}
 	pred := fplab.Predict(c.Plugins)
 	for i, p := range c.Plugins {
 		hs, gen, bye := p.Script.Kinds()
@@ -328,6 +495,23 @@ func classes(c Case, o *fplab.Obs) []string {
 			if st.Write != "" && st.Write != fplab.WWhole {
 				cls = append(cls, "write:"+st.Write)
 			}
+		}
+		for _, step := range fplab.Steps {
+			st := p.Script.StepOf(step)
+			how := ""
+			switch {
+			case fplab.Normalize(step, st.Kind) == fplab.KFlood:
+				how = "instead-of-reply"
+			case st.FloodsAfter(step):
+				how = "after-" + fplab.Normalize(step, st.Kind) + "-reply"
+			default:
+				continue
+			}
+			size := "flood-size:<=pipe-buffer"
+			if st.Flood > fplab.PipeBuffer {
+				size = "flood-size:>pipe-buffer"
+			}
+			cls = append(cls, "flood:"+step+":"+how, size, "flood-pattern:"+st.FloodPat)
 		}
 		if p.Script.ExitStatus != 0 {
 			cls = append(cls, "plugin-exit-status:nonzero")
@@ -370,18 +554,28 @@ func runCase(t ev.TB, unit string, c Case) {
 		t.Fatalf("%v", ee)
 		return
 	}
-	d := ev.DigestJSON(c.Plugins)
+	d := ev.DigestJSON(struct {
+		P        []fplab.Plugin
+		CLI, Arg string
+		After    bool
+	}{c.Plugins, c.CLI, c.Arg, c.CLIAfter})
+	if c.CLI == "" {
+		d = ev.DigestJSON(c.Plugins)
+	}
 	nt := nontrivial(c)
 	ev.Case(d, nt, classes(c, o)...)
 	if nt {
 		ev.KeepSample(unit, d, func() interface{} {
 			m := map[string]interface{}{"plugins": describe(c)}
+			if c.CLI != "" {
+				m["cli"] = c.CLI + " " + c.Arg
+			}
 			if o != nil {
 				m["host_exit"] = o.Exit
 				m["stderr"] = clipS(o.Stderr, 300)
 				var trs []string
 				for _, p := range c.Plugins {
-					trs = append(trs, p.Name+": "+trace(fplab.Of(o.Events, p.Name)))
+					trs = append(trs, p.ID()+": "+trace(fplab.Of(o.Events, p.ID())))
 				}
 				m["traces"] = trs
 			}
@@ -432,6 +626,16 @@ func genStep(t *rapid.T, self, step string, st *fplab.Step, faultBias int) {
 	case fplab.KException:
 		st.Message = rapid.SampledFrom([]string{"", "scripted failure", strings.Repeat("e", 300)}).Draw(t, label+"_msg")
 	}
+	// junk on stdout: instead of the reply (kind flood), or - one step in
+	// eight of a plugin that may fail - right after a complete reply
+	if kind == fplab.KFlood || (faultBias > 0 && fplab.RepliesInFull(fplab.Normalize(step, kind)) && rapid.IntRange(0, 7).Draw(t, label+"_floods") == 0) {
+		genFlood(t, st, label)
+	}
+}
+
+func genFlood(t *rapid.T, st *fplab.Step, label string) {
+	st.Flood = rapid.SampledFrom(fplab.FloodSizes).Draw(t, label+"_flood")
+	st.FloodPat = rapid.SampledFrom(fplab.FloodPats).Draw(t, label+"_flood_pat")
 }
 
 func genPlugin(t *rapid.T, name string, faultBias int) fplab.Plugin {
@@ -465,6 +669,10 @@ func genPlugin(t *rapid.T, name string, faultBias int) fplab.Plugin {
 		if rapid.IntRange(0, 3).Draw(t, name+"_leaves") == 0 {
 			p.Script.Goodbye.Kind = fplab.KExitAfterReply
 		}
+		// junk after the goodbye reply: the protocol is over, not a failure
+		if rapid.IntRange(0, 7).Draw(t, name+"_floods_after_goodbye") == 0 {
+			genFlood(t, &p.Script.Goodbye, name+"_goodbye")
+		}
 	}
 	if faultBias > 0 && rapid.IntRange(0, 19).Draw(t, name+"_exit_nz") == 0 {
 		p.Script.ExitStatus = rapid.SampledFrom([]int{1, 2, 3, 127, 255}).Draw(t, name+"_exit")
@@ -473,6 +681,31 @@ func genPlugin(t *rapid.T, name string, faultBias int) fplab.Plugin {
 		p.Script.LingerMs = rapid.SampledFrom([]int{1, 20, 150}).Draw(t, name+"_linger")
 	}
 	return p
+}
+
+// genCLI draws a variation of the command line and its parameter.
+func genCLI(t *rapid.T, nplugins int) (string, string) {
+	var cli string
+	switch rapid.IntRange(0, 5).Draw(t, "cli_class") {
+	case 0:
+		cli = rapid.SampledFrom([]string{cliOutputFile, cliHarmlessFlag}).Draw(t, "cli_normal")
+	case 1, 2:
+		cli = cliOutputFileNotGo
+	default:
+		cli = rapid.SampledFrom(cliFails).Draw(t, "cli_failing")
+	}
+	arg := ""
+	switch cli {
+	case cliOutputFile:
+		arg = rapid.SampledFrom(goNames).Draw(t, "cli_go_name")
+	case cliOutputFileNotGo:
+		arg = rapid.SampledFrom(notGoNames).Draw(t, "cli_not_go_name")
+	case cliHarmlessFlag:
+		arg = rapid.SampledFrom(harmlessFlags).Draw(t, "cli_flag")
+	case cliPluginNotFound:
+		arg = strconv.Itoa(rapid.IntRange(0, nplugins).Draw(t, "cli_missing_plugin_at"))
+	}
+	return cli, arg
 }
 
 // ---------------------------------------------------------------- units
@@ -490,7 +723,28 @@ func TestRandomScripts(t *testing.T) {
 		order := rapid.Permutation(pluginNames).Draw(t, "names")
 		c := Case{Src: "random", Thrift: thriftSrc}
 		for i := 0; i < n; i++ {
+			// one later plugin in four is a further instance of an earlier
+			// one: the same executable with other arguments and a script of
+			// its own (its files go to a directory of its own: a path
+			// conflict is C17's business)
+			if i > 0 && rapid.IntRange(0, 3).Draw(t, fmt.Sprintf("plugin%d_is_instance", i)) == 0 {
+				name := c.Plugins[rapid.IntRange(0, i-1).Draw(t, fmt.Sprintf("plugin%d_instance_of", i))].Name
+				p := genPlugin(t, name, bias)
+				p.Instance = fmt.Sprintf("i%d", i+1)
+				files := map[string][]byte{}
+				for k, v := range p.Script.Generate.Files {
+					files[p.Instance+"-"+k] = v
+				}
+				p.Script.Generate.Files = files
+				c.Plugins = append(c.Plugins, p)
+				continue
+			}
 			c.Plugins = append(c.Plugins, genPlugin(t, order[i], bias))
+		}
+		// a quarter of the runs vary the rest of the command line
+		if rapid.IntRange(0, 3).Draw(t, "cli_varied") == 0 {
+			cli, arg := genCLI(t, n)
+			c = withCLI(c, cli, arg, rapid.Bool().Draw(t, "cli_after_plugins"))
 		}
 		runCase(t, "random", c)
 	})
@@ -547,6 +801,28 @@ func faultRows(name string) []fplab.Plugin {
 			st.Write, st.Segs, st.DelayUs = w, []int{3, 1, 7}, 100
 			rows = append(rows, p)
 		}
+		// a conforming reply followed by more junk than a pipe holds: empty
+		// frames the host reads four bytes at a time, and a prefix that makes
+		// the host read all of it
+		for _, pat := range []string{fplab.FloodZero, fplab.FloodText} {
+			p := fplab.OKPlugin(name)
+			st := p.Script.StepOf(step)
+			st.Flood, st.FloodPat = 4*fplab.PipeBuffer, pat
+			rows = append(rows, p)
+		}
+	}
+	// a handshake the host rejects / that does not advertise the feature, with
+	// junk pending behind it; junk that fits into the pipe
+	for _, kind := range []string{fplab.KWrongName, fplab.KNoFeature} {
+		p := fplab.OKPlugin(name)
+		fplab.Fill(name, fplab.StepHandshake, kind, &p.Script.Handshake)
+		p.Script.Handshake.Flood, p.Script.Handshake.FloodPat = 4*fplab.PipeBuffer, fplab.FloodZero
+		rows = append(rows, p)
+	}
+	{
+		p := fplab.OKPlugin(name)
+		p.Script.Generate.Flood, p.Script.Generate.FloodPat = 4096, fplab.FloodZero
+		rows = append(rows, p)
 	}
 	for _, fl := range fplab.FeatureLists {
 		p := fplab.OKPlugin(name)
@@ -579,6 +855,55 @@ func TestFaultGrid(t *testing.T) {
 	ev.Note("fault-grid", fmt.Sprintf("%d cases in total, %d in this shard", len(cases), ran))
 }
 
+// cliRows are the command-line variations with representative parameters.
+func cliRows() [][2]string {
+	rows := [][2]string{{cliOutputFile, "svc.go"}, {cliPluginNotFound, "0"}, {cliPluginNotFound, "9"}}
+	for _, n := range notGoNames {
+		rows = append(rows, [2]string{cliOutputFileNotGo, n})
+	}
+	for _, f := range harmlessFlags {
+		rows = append(rows, [2]string{cliHarmlessFlag, f})
+	}
+	for _, k := range cliFails {
+		if k != cliOutputFileNotGo && k != cliPluginNotFound {
+			rows = append(rows, [2]string{k, ""})
+		}
+	}
+	return rows
+}
+
+// TestCLIGrid: every variation of the rest of the command line (valid and
+// invalid --output-file values, the other argument validations, inputs that
+// do not compile / do not generate, an output dir that cannot be written) x
+// plugin sets: one healthy plugin, two, a healthy one next to one whose
+// handshake is rejected, one that lingers, one that fails in generate.
+func TestCLIGrid(t *testing.T) {
+	var sets [][]fplab.Plugin
+	a, b := fplab.OKPlugin(pluginNames[0]), fplab.OKPlugin(pluginNames[1])
+	sets = append(sets, []fplab.Plugin{a}, []fplab.Plugin{a, b})
+	bad := fplab.OKPlugin(pluginNames[1])
+	fplab.Fill(bad.Name, fplab.StepHandshake, fplab.KWrongAPI, &bad.Script.Handshake)
+	sets = append(sets, []fplab.Plugin{a, bad})
+	slow := fplab.OKPlugin(pluginNames[2])
+	slow.Script.LingerMs = 150
+	sets = append(sets, []fplab.Plugin{slow, a})
+	exc := fplab.OKPlugin(pluginNames[1])
+	fplab.Fill(exc.Name, fplab.StepGenerate, fplab.KException, &exc.Script.Generate)
+	sets = append(sets, []fplab.Plugin{exc, a})
+	var cases []Case
+	rows := cliRows()
+	for _, r := range rows {
+		for _, ps := range sets {
+			for _, after := range []bool{false, true} {
+				cases = append(cases, withCLI(Case{Src: "cli-grid", Thrift: thriftSrc, Plugins: ps}, r[0], r[1], after))
+			}
+		}
+	}
+	ran := gridRun(t, "cli-grid", cases)
+	ev.Exhaustive(fmt.Sprintf("cli-grid(%d command-line variations = valid / invalid --output-file values, generator flags, every argument validation of main.go, input that does not compile / generate, unwritable --out, --version, --help, a plugin that is not on the PATH; before / after the --plugin flags; x %d plugin sets)", len(rows), len(sets)), true)
+	ev.Note("cli-grid", fmt.Sprintf("%d cases in total, %d in this shard", len(cases), ran))
+}
+
 // TestPairGrid: every row x every row for two concurrently running plugins.
 func TestPairGrid(t *testing.T) {
 	var cases []Case
@@ -597,7 +922,7 @@ func TestPairGrid(t *testing.T) {
 
 func replayOne(t *testing.T, f *ev.Failure) bool {
 	switch f.Unit {
-	case "random", "truncation-grid", "fault-grid", "pair-grid":
+	case "random", "truncation-grid", "fault-grid", "pair-grid", "cli-grid":
 		var c Case
 		if err := json.Unmarshal(f.Case, &c); err != nil {
 			t.Fatal(err)
